@@ -36,6 +36,19 @@ def sim_kw(seed):
     return {"max_steps": 3_000_000, "max_time": 7200.0}
 
 
+def on_hang(sim, exc):
+    """A transport thread that loops without end on a peer's message never reports anything through
+    the API; classified by the paramiko frame it spins in."""
+    msg = str(exc)
+    if "cpu spin" in msg and sim.spin_info:
+        who, frames = sim.spin_info
+        pf = [f for f in frames if not f.startswith(("threading.py", "core.py", "shims.py", "message.py"))]
+        where = pf[0].split(":")[0] + ":" + pf[0].split(":")[-1] if pf else "?"
+        return Violation(("C38", "peer-message-makes-transport-spin", where),
+                         "%s loops without end in %s while handling a peer message (%s)" % (who, where, " < ".join(frames[:5])))
+    return None
+
+
 # field schemas (after the type byte): t text, s string, u uint32, b bool, y byte, l name-list, * generic rest
 SCHEMA = {1: "utt", 2: "s", 4: "btt", 5: "t", 6: "t", 7: "u*", 50: "ttt*", 51: "lb", 53: "tt", 60: "tts*", 61: "u*",
           80: "tb*", 90: "tuuu*", 91: "uuuu", 92: "uutt", 93: "uu", 94: "us", 95: "uus", 96: "u", 97: "u", 98: "utb*",
